@@ -71,6 +71,7 @@ type rule struct {
 
 type Base struct {
 	kv.Base
+	anyScript []*Step // steps for the operations of goroutines that are NOT bound (the server's own background work)
 	mu    sync.Mutex
 	gids  map[int64]string
 	rules map[string]*rule
@@ -137,6 +138,27 @@ func (b *Base) Script(who string, steps []*Step) {
 	b.mu.Unlock()
 }
 
+// ScriptAny installs single-use steps that apply to the storage operations of UNBOUND goroutines, i.e. of the server's
+// own background work such as the leader loop loading the cluster after a campaign (nil removes them).
+func (b *Base) ScriptAny(steps []*Step) {
+	b.mu.Lock()
+	b.anyScript = steps
+	b.mu.Unlock()
+}
+
+// FiredAny reports how many steps of the ScriptAny script have fired.
+func (b *Base) FiredAny() int {
+	b.mu.Lock()
+	defer b.mu.Unlock()
+	n := 0
+	for _, s := range b.anyScript {
+		if s.used {
+			n++
+		}
+	}
+	return n
+}
+
 // Fired reports how many steps of the script of `who` have fired.
 func (b *Base) Fired(who string) int {
 	b.mu.Lock()
@@ -183,6 +205,16 @@ func (b *Base) enter(op Op) Mode {
 	b.mu.Lock()
 	who, ok := b.gids[gid()]
 	if !ok {
+		for _, st := range b.anyScript {
+			if !st.used && st.Match(op) {
+				st.used = true
+				b.mu.Unlock()
+				if st.Before != nil {
+					st.Before()
+				}
+				return st.Mode
+			}
+		}
 		b.mu.Unlock()
 		return Pass
 	}
